@@ -279,7 +279,7 @@ def gen_model(seed, nns=None, allow_cr=False, with_methods=True,
                 # internally when it hands the call to its observers)
                 pname = 'Ip%d' % q
                 if r.random() < 0.12:
-                    pname = r.choice(['method', 'Method', 'conn_id', 'Params',
+                    pname = r.choice(['method', 'Method', 'conn_id', 'params',
                                       'namespace'])
                     if any(x['name'].lower() == pname.lower()
                            for x in mparams):
